@@ -239,6 +239,8 @@ TLS_REQS = [
     [b"titan://localhost/up.txt;size=11\r\nhello", b" world", b"EXTRA"],
     [b"titan://localhost/up.txt;size=0\r\n"],
     [b"titan://localhost/up.txt;size=4\r\n", b"ab", b"cd", b"ef"],
+    # an upload that needs several full-size TLS records (together with the handshake's last flight: one long read)
+    [b"titan://localhost/big.bin;size=40000\r\n", bytes(range(256)) * 100, bytes(range(255, -1, -1)) * 56 + b"z" * 64],
 ]
 
 
